@@ -390,13 +390,13 @@ def run(ck):
     wrecs = []
     n1 = 4
     d1 = km.datasets(n1, 1, vals1)
-    d1 = rng.sample(d1, 4 if quick else 30)
+    d1 = rng.sample(d1, 4 if quick else 20)
     wrecs += wccn_run(ck, "wccn-1d", n1, 1, d1, partitions(n1, 3), labs, some_perms(n1, 2 if quick else 3, rng),
                       coverage=cov)
     n2 = 5 if quick else 6
-    d2 = rng.sample(km.datasets(n2, 2, vals2), 4 if quick else 24)
+    d2 = rng.sample(km.datasets(n2, 2, vals2), 4 if quick else 10)
     p2 = partitions(n2, 3)
-    p2 = rng.sample(p2, 6 if quick else 30)
+    p2 = rng.sample(p2, 6 if quick else 20)
     wrecs += wccn_run(ck, "wccn-2d", n2, 2, d2, p2, labs, some_perms(n2, 2 if quick else 3, rng), coverage=cov)
     # the deviating variant must be refuted (non-vacuity; this is what wccn.py:75 does)
     wccn_run(ck, "wccn-1d-dev-" + DEV_WCCN, n1, 1, d1[:2], partitions(n1, 3), labs, some_perms(n1, 2, rng),
